@@ -59,7 +59,9 @@ Definition f2z (f : float) : Z :=
   | S754_finite s m e =>
       let a := if 0 <=? e then Zpos m * 2 ^ e else Zpos m / 2 ^ (- e) in
       let z := if s then - a else a in
-      if in_int64 z then z else min_int64
+      (* float64ToInt64 (conv.go, after the repair of fetch-absolute-beyond-int64): a float out of the range
+         of integers is converted to the nearest integer *)
+      if in_int64 z then z else if z <? 0 then min_int64 else max_int64
   | _ => min_int64
   end.
 
@@ -69,7 +71,10 @@ Definition to_integer (v : val) : option Z :=
   | VFloat f => if is_nan f || f_is_inf f then None else Some (f2z f)
   | VStr s => match oint s with
               | Some z => Some z
-              | None => match ofloat s with Some f => Some (f2z f) | None => None end
+              | None => match ofloat s with
+                        | Some f => if is_nan f || f_is_inf f then None else Some (f2z f)
+                        | None => None
+                        end
               end
   | _ => None
   end.
